@@ -156,7 +156,7 @@ func TestC16_Log(t *testing.T) {
 	rapid.Check(t, func(t *rapid.T) {
 		path := gen.TempPath(".json")
 		defer os.Remove(path)
-		maxIn := rapid.SampledFrom([]int{2, 1, 5, -1, 0, 100}).Draw(t, "max")
+		maxIn := rapid.SampledFrom([]int{2, 1, 5, -1, 0, 100, 2, 5, 10001, 20000, 1 << 40}).Draw(t, "max")
 		sh := history.NewSearchHistory(path, maxIn)
 		max := sh.MaxSize
 		if max <= 0 {
